@@ -7,7 +7,7 @@ def _disabled_sessions(chk):
     from .. import config_replay, identity_replay, pool, reeval_replay, session_driver, tlc
     from ..checklib import MachineryError
     # repeated evaluation of one call with dynamic parts: every answer is that of the plain value (ISReEval)
-    reeval_replay.run(chk, stride=16 if chk.quick else 2)
+    reeval_replay.run(chk, stride=16 if chk.quick else 4)
     stride = 9000 if chk.quick else 600
     res = tlc.run_tlc("MC_Config", "Config.cfg", overrides={"Mode": "emit", "Stride": stride, "Offset": chk.seed % stride}, timeout=600)
     chk.add_tlc(res, "emit Config (for the identity clause)")
@@ -41,7 +41,7 @@ def _disabled_sessions(chk):
 
 
 def run():
-    chk = core_check("C06", f_filter=lambda F: F == [], quick_keep=3, thorough_keep=1, extra=_disabled_sessions, traces=(2000, 40000), trace_flags="none")
+    chk = core_check("C06", f_filter=lambda F: F == [], quick_keep=3, thorough_keep=1, extra=_disabled_sessions, traces=(2000, 20000), trace_flags="none")
     if isinstance(chk, int):
         return chk
     chk.assumptions += ["values are drawn from pools of leaf types (int, str, bytes, float, bool, None)",
